@@ -362,8 +362,12 @@ class Model:
         self.builtins = {}         # builtin name -> replacement callable (abstract min / max / abs ...)
 
 
+SOURCE_FIRST = ("copy", "add_columns", "keep_columns", "as_series", "as_dataframe")
+
+
 class Interp:
     def __init__(self, prog, model=None):
+        self._source_first_active = set()
         self.prog = prog
         self.model = model or Model()
         self.depth = 0
@@ -498,10 +502,24 @@ class Interp:
             r = h(self, obj, name, args, kw)
             if r is not NotImplemented:
                 return r
+        if isinstance(obj, GA) and name == "__class__":
+            return self.construct(obj.cls, list(args), dict(kw))          # self.__class__(table, meta)
         if isinstance(obj, GA):
             if name in self.model.method_prims:
                 self.model.summaries_used.add("method:" + name)
                 return self.model.method_prims[name](self, obj, *args, **kw)
+            if name in SOURCE_FIRST and name not in self._source_first_active:
+                # small GenomicArray helpers with a built-in summary: the repository's own body is interpreted when it can be,
+                # so that a change to it is seen; the summary (the pinned source's meaning) is the fallback
+                fm0 = self.prog.find_method(obj.cls, name)
+                if fm0 is not None:
+                    self._source_first_active.add(name)
+                    try:
+                        return self.call(Closure(fm0.node, {}, fm0.mod, fm0.qn), [obj] + list(args), kw)
+                    except Undecided:
+                        pass
+                    finally:
+                        self._source_first_active.discard(name)
             r = self.lib.ga_builtin(self, obj, name, args, kw)
             if r is not NotImplemented:
                 return r
@@ -940,6 +958,17 @@ class Interp:
         if isinstance(n, ast.Subscript):
             obj = self.ev(n.value, env)
             k = self.ev(n.slice, env)
+            if isinstance(obj, GA) and isinstance(k, Vec) and not getattr(self, "_in_ga_getitem", False):
+                # arr[mask / row list]: through the repository's own GenomicArray.__getitem__ when it can be interpreted
+                fm = self.prog.find_method(obj.cls, "__getitem__")
+                if fm is not None:
+                    self._in_ga_getitem = True
+                    try:
+                        return self.call(Closure(fm.node, {}, fm.mod, fm.qn), [obj, k], {})
+                    except Undecided:
+                        pass                      # fall back to the summary (the pinned source's semantics)
+                    finally:
+                        self._in_ga_getitem = False
             return self.lib.load_subscript(self, obj, k)
         if isinstance(n, ast.Slice):
             return slice(self.ev(n.lower, env) if n.lower else None, self.ev(n.upper, env) if n.upper else None,
